@@ -1,3 +1,37 @@
-(* C18 -- placeholder while the tie is brought up; theorems follow. *)
-From Y Require Import Prelude Node Loader LoadRun.
-Theorem C18_placeholder : True. Proof. exact I. Qed.
+(* C18 -- anchors and aliases are transparent.
+   A document with aliases is a node graph (Model/Graph.v).  The loader first expands the graph into a
+   tree -- every alias becomes a copy of the anchored node -- and then runs the tree pipeline, so loading
+   an aliased document IS loading its expansion; what has to be shown is that expansion always ends with
+   a verdict (self-references are rejected, never looped on).  The tie (harness/props/c18.py) compares
+   Loader.__expand_aliases with `expand` on composed graphs, aliased vs textually expanded documents on
+   the implementation, and the implementation with the model run on the expansion. *)
+From Coq Require Import NArith ZArith List Bool String.
+Import ListNotations.
+From Y Require Import Prelude Node Tables NodeOps Types Recognize Loader Graph GraphProofs.
+
+(* loading a graph is loading its expansion, and fails iff expansion or that load fails *)
+Theorem C18_transparent : forall o reg g root T,
+  load_graph o reg g root T = match expand_graph g root with
+                              | Ok n => load o reg (Some n) T
+                              | Err e => Err e end.
+Proof. intros. unfold load_graph. destruct (expand_graph g root); reflexivity. Qed.
+
+(* expansion terminates with a verdict for every graph: it never exhausts its fuel (= the stack) *)
+Theorem C18_expand_total : forall g root, exists r, expand_graph g root = r /\ r <> Err EFuel.
+Proof. exact expand_graph_total. Qed.
+Print Assumptions C18_expand_total.
+
+(* a reference to an enclosing node is rejected with RecognitionError *)
+Theorem C18_cycle_rejected : forall f g path l, In l path -> expand (S f) g path l = Err ERecognition.
+Proof. exact expand_rejects_cycle. Qed.
+
+(* non-vacuity: a shared scalar is copied; &a [*a] is rejected *)
+Local Open Scope string_scope.
+Example C18_ex_shared :
+  expand_graph [CMap tag_map [(1, 2); (3, 2)]%nat nomark; CScalar tag_str (u "k1") nomark;
+                CScalar tag_str (u "v") nomark; CScalar tag_str (u "k2") nomark] 0%nat
+  = Ok (Map tag_map [(Scalar tag_str (u "k1") nomark, Scalar tag_str (u "v") nomark);
+                     (Scalar tag_str (u "k2") nomark, Scalar tag_str (u "v") nomark)] nomark).
+Proof. vm_compute. reflexivity. Qed.
+Example C18_ex_cycle : expand_graph [CSeq tag_seq [0%nat] nomark] 0%nat = Err ERecognition.
+Proof. vm_compute. reflexivity. Qed.
